@@ -65,6 +65,9 @@ void harness(void) {
 	__CPROVER_assert(VR_H_IN0 == 1 && VR_H_AGGOUT == 6 && VR_H_NEW1 == 7 && VR_H_NEW2 == 8, "slot numbers used in the loop invariant");
 	VL_CALL(KSI_VerificationRule_AggregationHashChainConsistency) VL_REACH_FAIL(KSI_VER_ERR_INT_1, "FAIL INT-01")
 	if (res == KSI_OK && result->resultCode == KSI_VER_RES_OK && g_vl_calls == 0) REACH("OK for a signature without chains");
+	/* the error path of the aggregation (seed C11-3: a double release of the previous root on exactly this path) */
+	if (g_vl_na && g_vl_aggs == 0 && g_vl_calls == 1) REACH("aggregation of the first chain fails");
+	if (g_vl_na && g_vl_aggs >= 1 && g_vl_calls == g_vl_aggs + 1) REACH("aggregation of a later chain fails");
 }
 #endif
 #ifdef VL_MODE_IDX
